@@ -27,6 +27,14 @@ func c19Check(r *ev.Run, name string, data []byte, uniform int, key string) (lab
 	if uniform > 0 {
 		src = &envx.Src{Data: data, Uniform: uniform}
 	}
+	if uniform < 0 {
+		// a seekable reader handed over positioned -uniform bytes into its data:
+		// "the stream from its first byte" is what the reader has left
+		junk := bytes.Repeat([]byte{0xFF, 0xD8, 0x89, 'P', 'R', 'I', 'F', 'F'}, -uniform/8+1)[:-uniform]
+		br := bytes.NewReader(append(junk, data...))
+		br.Seek(int64(-uniform), io.SeekStart)
+		src = br
+	}
 	got, st := load(&loaders[3], src)
 	cs := func() interface{} {
 		return map[string]interface{}{"input": name, "len": len(data), "data_hex_first_65536": hexHead(data, 65536), "bytes_per_call": uniform, "first_succeeding_loader": which}
@@ -57,7 +65,7 @@ func c19Check(r *ev.Run, name string, data []byte, uniform int, key string) (lab
 func C19(tier string) {
 	r := ev.Begin("C19", tier, "exploration")
 	r.NotExhaustive()
-	r.Rule("differential over: the C05 header grammar (18k files), the C06 size/order/damage files, every truncation and EVERY single-byte substitution (255 values x every position) of the small format seeds (incl. a JPEG with short segments after its frame header), the corrupt seeds, polyglots (first k=1..12 bytes of each format followed by each other format's complete file; signature + junk; SOI without SOF + 64 KiB; RIFF/WEBP + unknown chunk; one format's file appended to another's), the repository images; each all at once and 1 byte per call; every sequence of up to 4 (thorough 5) operations {Load(auto or specific, file), drain(earlier stream)} over five small files; distinct = distinct inputs")
+	r.Rule("differential over: the C05 header grammar (18k files), the C06 size/order/damage files, every truncation and EVERY single-byte substitution (255 values x every position) of the small format seeds (incl. a JPEG with short segments after its frame header), the corrupt seeds, polyglots (first k=1..12 bytes of each format followed by each other format's complete file; signature + junk; SOI without SOF + 64 KiB; RIFF/WEBP + unknown chunk; one format's file appended to another's), the repository images; each all at once, 1 byte per call and from a seekable reader positioned 37 bytes into its data; every sequence of up to 4 (thorough 5) operations {Load(auto or specific, file), drain(earlier stream)} over five small files; distinct = distinct inputs")
 	r.Assume("'succeeds' = returns metadata and a nil error on the complete input read from its first byte; ICC outcome compared as bytes / absent / error presence")
 
 	var inputs []Case
@@ -143,7 +151,8 @@ func C19(tier string) {
 			outcomes[c19Check(r, c.Name, c.Data, 0, "auto")].Add(1)
 			if len(c.Data) <= 100000 {
 				c19Check(r, c.Name, c.Data, 1, "auto-1byte")
-				r.Eval(1)
+				c19Check(r, c.Name, c.Data, -37, "auto-positioned-seekable")
+				r.Eval(2)
 			}
 			r.Eval(1)
 			ndone.Add(1)
